@@ -4,7 +4,7 @@ from props.fsmlib import *
 def cases(tier):
     L = []
     T = 1 if tier == 'quick' else 3
-    combos = [('f5', 'u32')] if tier == 'quick' else [('f5', 'u32'), ('f5', 'big'), ('f5', 'c5'), ('foroot', 'u32'), ('f10', 'u32')]
+    combos = [('f5', 'u32')] if tier == 'quick' else [('f5', 'u32'), ('foroot', 'u32'), ('f10', 'u32')]
     for fam, pl in combos:
         o = dict(sublimit=2, features=['TRANSITION_HISTORY'], payload=pl, callbacks=['guard', 'life', 'select'], act=[], kinds=0)
         fx = fixture('C14', fam, o, tag=pl)
@@ -12,13 +12,13 @@ def cases(tier):
         L.append(fsm_case('C14', fx, 'batch2', ['P_C14', 'ENTRY=16', 'NREQ=2', 'CB_BUDGET=0'], timeout=1200 * T, witness=True, nreq=2, budget=0))
         L.append(fsm_case('C14', fx, 'single', ['P_C14', 'ENTRY=16', 'NREQ=1', 'CB_BUDGET=0'], timeout=900 * T, witness=False, nreq=1, budget=0))
         L.append(fsm_case('C14', fx, 'two_steps', ['P_C14', 'ENTRY=18', 'CB_BUDGET=0'], timeout=1500 * T, witness=True, nreq=1, budget=0))
-    mark_cover(L, ['c14.*.single', 'c14.*.batch2'])
+    mark_cover(L, ['c14.f5*.single', 'c14.f5*.batch2'])
     return L
 
 def run(tier, seed):
     shutil.rmtree(os.path.join(BUILD, 'C14'), ignore_errors=True)
     return execute('C14', tier, seed, cases(tier), COMMON_ASSUME + [
-        'fixture configured with PayloadT<P> (P = uint32_t; thorough adds an over-aligned 32-byte struct and a 5-byte struct, encoded/decoded by mk_payload/rd_payload in the fixture) and transition history',
+        'fixture configured with PayloadT<P> (P = uint32_t; struct payloads - an over-aligned 32-byte and a 5-byte struct were tried: the solver's counterexamples for them did not reproduce natively, i.e. the translation of the struct copies is not validated, so they are NOT part of the claim) and transition history',
         'two consecutive steps reusing the same history slots (with/without payload in either order); one or two queued external requests (kind change/restart/resume/select, any non-root destination), each with or without a payload; payload values are independent symbolic 32-bit values; guards approve, callbacks issue nothing',
         'oracle: inside every guard pendingTransitions()[i] and inside every enter() currentTransitions()[i] expose destination, kind and exactly the i-th request\'s payload (or none); afterwards previousTransitions()[i] and lastTransitionTo(s) expose the same - never another request\'s value',
-        'plan-task payloads (PayloadPlanT::append -> updatePlan) are exercised by the C06 harness with a payload fixture in the thorough tier'])
+        'plan-task payloads are covered by C10 (copy_plans: payloads of tasks and of the requests the executor issues) and C15 (payload vs void configuration)'])
